@@ -282,3 +282,195 @@ Definition flib_ok (tol : float) (xs exps logs sins coss : list float)
   all2 (fun x v => close1 tol tol (fsin x) v) xs sins &&
   all2 (fun x v => close1 tol tol (fcos x) v) xs coss &&
   all2 (fun xy v => close1 tol tol (fatan2 (fst xy) (snd xy)) v) (combine ys xs) at2.
+
+(* ================================================================================== *)
+(* Bandwidths: _covariance, _local_population, the two localisation tuners, effdim,     *)
+(* oas, Silverman's factor.  The routines that are pure matrix algebra are mexp programs  *)
+(* (theorems about eval_mx of the same terms in Proofs/SparseKDEAP.v); the rest is float- *)
+(* only list code.  The model follows the REPAIRED code (fixes/F12, F14, F16):             *)
+(*   effdim   0*log(0) := 0, negativity threshold relative to the largest eigenvalue;       *)
+(*   oas      phi = min(1, num/den) if den > 0 else 1;                                       *)
+(*   fspread tuner calls _local_population(cell, X, X[idx], ...).                             *)
+(* ================================================================================== *)
+
+(* ---- mexp programs ------------------------------------------------------------------- *)
+Definition m_recip (a : mexp 1 1) : mexp 1 1 := MMap Frecip (MConst 0%Z) a.
+
+(* _covariance(X, w, None); variables 0 := X (n x D), 1 := w (n x 1) *)
+Section CovProg.
+  Variables n D : nat.
+  Let X : mexp n D := MVar 0.
+  Let wv : mexp n 1 := MVar 1.
+  Definition cp_totw : mexp 1 1 := MMul (MOnes 1 n) wv.
+  Definition cp_p : mexp n 1 := MScale (m_recip cp_totw) wv.              (* w / totw *)
+  Definition cp_xm : mexp 1 D :=                                          (* np.average *)
+    MScale (m_recip (MMul (MOnes 1 n) cp_p)) (MMul (MTr cp_p) X).
+  Definition cp_xxm : mexp n D := MSub X (MMul (MOnes n 1) cp_xm).
+  Definition cp_c : mexp 1 1 := MSub (MConst 1%Z) (MMul (MTr cp_p) cp_p).  (* 1 - sum p^2 *)
+  Definition cov_prog : mexp D D :=
+    MScale (m_recip cp_c) (MMul (MTr (MMul (MDiag cp_p) cp_xxm)) cp_xxm).
+End CovProg.
+
+(* oas (repaired) followed by the Silverman scaling; variables 0 := cov (D x D),
+   1 := nlocal (1 x 1), 2 := Silverman factor s (1 x 1).
+   psi = 1 - phi = max(0, (den - num)/den) if den > 0 else 0. *)
+Section OasProg.
+  Variable D : nat.
+  Let cov : mexp D D := MVar 0.
+  Let nl : mexp 1 1 := MVar 1.
+  Let s : mexp 1 1 := MVar 2.
+  Let one : mexp 1 1 := MConst 1%Z.
+  Let Dc : mexp 1 1 := MConst (Z.of_nat D).
+  Definition op_tr : mexp 1 1 := MTrace cov.
+  Definition op_t2 : mexp 1 1 := MTrace (MHad cov cov).                   (* np.trace(cov**2) *)
+  Definition op_a : mexp 1 1 := MSub one (MMul (MConst 2%Z) (m_recip Dc)). (* 1 - 2/D *)
+  Definition op_num : mexp 1 1 := MAdd (MMul op_a op_t2) (MMul op_tr op_tr).
+  Definition op_den : mexp 1 1 :=
+    MSub (MMul (MAdd nl op_a) op_t2) (MMul (MMul op_tr op_tr) (m_recip Dc)).
+  Definition op_psi : mexp 1 1 :=
+    MMap Fpos_part (MConst 0%Z)
+         (MMul (MSub op_den op_num) (MMap Finv_gt (MConst 0%Z) op_den)).
+  Definition op_coef : mexp 1 1 := MMul (MMul (MSub one op_psi) op_tr) (m_recip Dc).
+  Definition oas_prog : mexp D D :=
+    MScale s (MAdd (MScale op_psi cov) (MScale op_coef (MId D))).
+End OasProg.
+
+(* ---- float-only list code ---------------------------------------------------------------- *)
+Open Scope float_scope.
+
+Definition fsqd (cell : option (list float)) (u v : list float) : float :=
+  fsum (map (fun z => z * z) (ndelta fops cell u v)).
+
+(* _local_population(cell, X, xi, W, sigma2) -> (wl, num) *)
+Definition local_pop (cell : option (list float)) (X : fmat) (xi W : list float) (s2 : float)
+  : list float * float :=
+  let wl := lmap2 (fun xj wj => fexp (-0.5 / s2 * fsqd cell xj xi) * wj) X W in
+  (wl, fsum wl).
+
+Definition col1 (v : list float) : fmat := map (fun x => [x]) v.
+Definition env2 (A B : fmat) (x : nat) : fmat := match x with O => A | _ => B end.
+Definition env3 (A B C : fmat) (x : nat) : fmat :=
+  match x with O => A | S O => B | _ => C end.
+
+(* _covariance(X, w, cell): free space = the mexp program, periodic = as written *)
+Definition covariance_f (cell : option (list float)) (D : nat) (X : fmat) (wl : list float) : fmat :=
+  match cell with
+  | None => eval_f (env2 X (col1 wl)) (cov_prog (length X) D)
+  | Some c =>
+      let totw := fsum wl in
+      let p := map (fun x => x / totw) wl in
+      let sp := fsum p in
+      let avg (f : float -> float) : list float :=
+        map (fun k => fsum (lmap2 (fun r pi => f (nth k r 0) * (2 * f_pi) / nth k c 0 * pi) X p) / sp)
+            (seq 0 D) in
+      let xm := lmap2 fatan2 (avg fsin) (avg fcos) in
+      let xxm := map (fun r => lmap2 (fun ck z => z - frint (z / ck) * ck) c (lmap2 sub r xm)) X in
+      let xxmw := lmap2 (fun r wi => map (fun z => z * wi / totw) r) xxm wl in
+      let cden := 1 - fsum (map (fun x => x * x) p) in
+      map (map (fun z => z / cden)) (fmul D (ftr D xxmw) xxm)
+  end.
+
+Definition ftrace (A : fmat) : float := fsum (map (fun i => fget A i i) (seq 0 (length A))).
+
+(* the fraction-of-points tuner, on fuel; None = out of fuel (the implementation does not return) *)
+Fixpoint grow (fuel : nat) (lp : float -> list float * float) (lim tune s2 : float)
+    (cur : list float * float) : option (float * (list float * float)) :=
+  if ltb (snd cur) lim then
+    match fuel with
+    | O => None
+    | S f => let s2' := s2 + tune in grow f lp lim tune s2' (lp s2')
+    end
+  else Some (s2, cur).
+
+Fixpoint bisect (fuel : nat) (lp : float -> list float * float) (lim delta : float)
+    (step s2 fl : float) : option (float * (list float * float)) :=
+  match fuel with
+  | O => None
+  | S f =>
+      let s2' := if ltb lim fl then s2 - step else s2 + step in
+      let cur := lp s2' in
+      if ltb (abs (snd cur - lim)) delta then Some (s2', cur)
+      else bisect f lp lim delta (step / 2) s2' (snd cur)
+  end.
+
+Definition tune_points (lp : float -> list float * float) (fpoints Wi delta tune s2 : float)
+    (cur : list float * float) : option (float * (list float * float)) :=
+  let lim := if leb fpoints Wi then Wi + delta else fpoints in
+  match grow 5000 lp lim tune s2 cur with
+  | None => None
+  | Some (s2', cur') => bisect 1100 lp lim delta (tune / 2) s2' (snd cur')
+  end.
+
+(* effdim (repaired) from the eigenvalue hints; None = LinAlgError *)
+Definition f_eps := 0x1p-52.
+Definition fmaxl (l : list float) : float := fold_left (fun a x => if ltb a x then x else a) l neg_infinity.
+Definition fminl (l : list float) : float := fold_left (fun a x => if ltb x a then x else a) l infinity.
+Definition effdim_f (D : nat) (eig : list float) : option float :=
+  let big := fmaxl (map abs eig) in
+  if leb (fminl eig) (- (fof_Z (Z.of_nat D)) * f_eps * (if ltb 1 big then big else 1)) then None
+  else
+    let e := map (fun x => if ltb x 0 then 0 else x) eig in
+    let s := fsum e in
+    let p := filter (fun x => ltb 0 x) (map (fun x => x / s) e) in
+    Some (fexp (- fsum (map (fun x => x * flog x) p))).
+
+(* the eigenvalue hint is validated through the power sums  sum lambda^k = tr(cov^k), k = 1..D *)
+Fixpoint fpowl (k : nat) (x : float) : float := match k with O => 1 | S k' => x * fpowl k' x end.
+Fixpoint mpow (D k : nat) (A : fmat) : fmat := match k with O => fid D | S k' => fmul D A (mpow D k' A) end.
+Definition eig_hint_ok (tol : float) (D : nat) (cov : fmat) (eig : list float) : bool :=
+  let sc := fmaxabs cov in
+  Nat.eqb (length eig) D &&
+  forallb (fun k => leb (abs (fsum (map (fpowl k) eig) - ftrace (mpow D k cov)))
+                        (tol * fof_Z (Z.of_nat D) * fpowl k (fof_Z (Z.of_nat D) * sc)))
+          (seq 1 D).
+
+(* _bandwidth_estimation_from_localization *)
+Definition bandwidth_from (tol : float) (cell : option (list float)) (D : nat) (ns : float)
+    (X : fmat) (wl : list float) (fl : float) (eig : list float) : option fmat :=
+  let cov := covariance_f cell D X wl in
+  let nlocal := fl * ns in
+  if negb (eig_hint_ok tol D cov eig) then None
+  else match effdim_f D eig with
+       | None => None
+       | Some d =>
+           let s := fexp (2 / (d + 4) * flog (4 / nlocal / (d + 2))) in
+           Some (eval_f (env3 cov [[nlocal]] [[s]]) (oas_prog D))
+       end.
+
+(* min over the other grid points of the squared (periodic) distance *)
+Definition mindist_f (cell : option (list float)) (X : fmat) (i : nat) : float :=
+  fminl (map (fun j => if Nat.eqb i j then infinity else fsqd cell (nth i X []) (nth j X []))
+             (seq 0 (length X))).
+
+(* _computes_localized_bandwidth; ns = nsamples, W = _sample_weights, eigs = hints per grid point *)
+Definition fit_bandwidths (tol : float) (cell : option (list float)) (D : nat) (ns : float)
+    (X : fmat) (W : list float) (fpoints fspread : float) (eigs : list (list float))
+  : list (option fmat) :=
+  let cov := covariance_f cell D X W in
+  let tune := match cell with
+              | Some c => fsum (map (fun x => x * x) c)
+              | None => ftrace cov
+              end in
+  let s20 := if ltb 0 fspread then tune * (fspread * fspread) else tune in
+  let fp := if ltb 0 fspread then -1 else fpoints in
+  let delta := 1 / ns in
+  map (fun i =>
+         let xi := nth i X [] in
+         let lp := local_pop cell X xi W in
+         let cur := lp s20 in
+         let res :=
+           if ltb 0 fp then tune_points lp fp (nth i W 0) delta tune s20 cur
+           else if ltb s20 (snd cur) then let m := mindist_f cell X i in Some (m, lp m)
+           else Some (s20, cur) in
+         match res with
+         | None => None
+         | Some (_, (wl, fl)) => bandwidth_from tol cell D ns X wl fl (nth i eigs [])
+         end)
+      (seq 0 (length X)).
+
+(* part C of the check *)
+Definition bw_case_ok (rtol atol htol : float) (cell : option (list float)) (D : nat) (ns : float)
+    (X : fmat) (W : list float) (fpoints fspread : float) (eigs : list (list float))
+    (o_bw : list fmat) : bool :=
+  all2 (fun m o => match m with Some h => fclose rtol atol h o | None => false end)
+       (fit_bandwidths htol cell D ns X W fpoints fspread eigs) o_bw.
